@@ -18,6 +18,7 @@ AST (plain tuples):
   function   dict(name, params=[(pname,ty,isref)], body=[stmt], ret=(ty,expr)|None)
   program    dict(globals=[('decl',..)], funs=[function], main=[stmt])
 """
+import re
 import random
 
 FIELDS = (("name", "T"), ("werte", "ZL"), ("anzahl", "Z"))
@@ -1574,6 +1575,7 @@ def generic_param_program(ty, flavour, placement, path):
     pub = "öffentliche " if placement == "module" else ""
     gen = "generische " if flavour == "generic" else ""
     lib = []
+    defs = []       # flavour "forward": the definitions ('Die Funktion f macht:') that follow at the end of the file
     if ty == "KP":
         if flavour == "generic":
             lib.append('Wir nennen die %sgenerische Kombination aus\n\tdem %sT erstes,\n\tder %sT Liste rest,\nein Paar, und erstellen sie so:\n\t"Paar(<erstes>, <rest>)"\n'
@@ -1616,6 +1618,20 @@ def generic_param_program(ty, flavour, placement, path):
         "TX": 'Die Funktion zeigeW mit dem Parameter l vom Typ Text, gibt nichts zurück, macht:\n\tSchreibe l.\n\tSchreibe \'|\'.\nUnd kann so benutzt werden:\n\t"zeige <l>"\n',
         "KP": 'Die Funktion zeigeW mit dem Parameter l vom Typ %s, gibt nichts zurück, macht:\n\tSchreibe (erstes von l).\n\tSchreibe \';\'.\n\tFür jede Zahl z in (rest von l), mache:\n\t\tSchreibe z.\n\t\tSchreibe \' \'.\n\tSchreibe \'|\'.\nUnd kann so benutzt werden:\n\t"zeige <l>"\n' % ("Zahl-Paar" if flavour == "generic" else "ZPaar"),
     }[ty]
+    if flavour == "forward":
+        # schreiber and every kern_* except kern_refcall are declared with 'wird später definiert' and defined at the
+        # very end of the file, after other functions with bodies; kern_refcall and huelle_* (ordinary functions)
+        # hand their parameter on to the forward declared schreiber
+        new = []
+        for f in lib:
+            m = re.match(r"(Die (?:öffentliche )?Funktion (\w+) mit .*?, gibt .*? zurück), macht:\n(.*)\nUnd kann so benutzt werden:\n(.*)$", f, re.S)
+            if m and (m.group(2) == "schreiber" or (m.group(2).startswith("kern_") and m.group(2) != "kern_refcall")):
+                new.append("%s,\nwird später definiert\nund kann so benutzt werden:\n%s" % (m.group(1), m.group(4)))
+                defs.append("Die Funktion %s macht:\n%s\n" % (m.group(2), m.group(3)))
+            else:
+                new.append(f)
+        assert defs
+        lib = new
     # the caller: a function with local variables
     sz = []
     exp = []
@@ -1653,12 +1669,12 @@ def generic_param_program(ty, flavour, placement, path):
     head = 'Binde "Duden/Ausgabe" ein.\n'
     files = {}
     if placement == "module":
-        files["@MOD@"] = "\n".join(lib)
+        files["@MOD@"] = "\n".join(lib + defs)
         src = head + 'Binde "@MOD@" ein.\n\n' + show + "\n" + szene + "\nszene 1.\n"
     else:
-        src = head + "\n" + "\n".join(lib) + "\n" + show + "\n" + szene + "\nszene 1.\n"
+        src = head + "\n" + "\n".join(lib) + "\n" + show + "\n" + szene + "\nszene 1.\n" + ("\n" + "\n".join(defs) if defs else "")
     name = "value parameters of %s callees (%s), %s, called %s" % (
-        flavour, {"ZL": "T Liste = Zahlen Liste", "TL": "T Liste = Text Liste", "TX": "T = Text", "KP": "T-Paar = Zahl-Paar"}[ty] if flavour == "generic" else ty,
+        {"forward": "forward declared"}.get(flavour, flavour), {"ZL": "T Liste = Zahlen Liste", "TL": "T Liste = Text Liste", "TX": "T = Text", "KP": "T-Paar = Zahl-Paar"}[ty] if flavour == "generic" else ty,
         "imported module" if placement == "module" else "same module", "directly" if path == "direct" else "from inside another function")
     return (dict(kind="raw", name=name, gp=(ty, flavour, placement, path)), dict(raw=src, expected="".join(exp), name=name, files=files))
 
@@ -1666,10 +1682,129 @@ def generic_param_program(ty, flavour, placement, path):
 def generic_param_programs():
     out = []
     for ty in ("ZL", "TL", "TX", "KP"):
-        for flavour in ("generic", "mono"):
+        for flavour in ("generic", "mono", "forward"):
             for placement in ("same", "module"):
                 for path in ("direct", "via"):
                     r = generic_param_program(ty, flavour, placement, path)
                     if r:
                         out.append(r)
+    return out
+
+
+# ---------------------------------------------------------------------------------------------------------------
+# callee kinds the constant-parameter annotator has to see although they are no plain FuncDecl-with-body / FuncCall:
+# operator overloads (the call only exists as OverloadedBy), sibling arguments that change the variable while the
+# call's arguments are evaluated, operands changed by a later operand.  (Forward declared callees: flavour "forward"
+# of generic_param_program.)  Hand-computed expectations: arguments and operands are evaluated left to right in
+# PARAMETER order and a by-value argument / operand is the value at that moment.
+# ---------------------------------------------------------------------------------------------------------------
+CK_TY = {
+    "ZL": dict(T="Zahlen Liste", R="Zahlen Listen Referenz", decl="Die Zahlen Liste", lit="eine Liste, die aus 1, 2, 3 besteht",
+               w=lambda n: "Speichere %d in l an der Stelle 1." % n, shown="1 2 3 ", first="1", second="2",
+               show='\tFür jede Zahl z in l, mache:\n\t\tSchreibe z.\n\t\tSchreibe \' \'.\n\tSchreibe \'|\'.'),
+    "TX": dict(T="Text", R="Text Referenz", decl="Der Text", lit='"abc"',
+               w=lambda n: "Speichere '%s' in l an der Stelle 1." % "QRSTUVWXYZ"[n % 10], shown="abc", first="a", second="b",
+               show="\tSchreibe (l verkettet mit \"\").\n\tSchreibe '|'."),   # Schreibe is extern: printing l itself would make it non-constant
+}
+
+
+def ck_written(ty, n):
+    return ("%d 2 3 " % n) if ty == "ZL" else ("QRSTUVWXYZ"[n % 10] + "bc")
+
+
+def operator_program(ty):
+    t = CK_TY[ty]
+    T, R = t["T"], t["R"]
+    cast_to, cast_ret, cast_val, cast_show = ("Text", "einen Text", '"T"', "T") if ty == "ZL" else ("Zahl", "eine Zahl", "6", "6")
+    src = ['Binde "Duden/Ausgabe" ein.\n']
+    src.append('Die Funktion op_neg mit dem Parameter l vom Typ %s, gibt eine Zahl zurück, macht:\n\t%s\n\tGib 5 zurück.\nUnd überlädt den "unäres minus" Operator.\n' % (R, t["w"](91)))
+    src.append('Die Funktion op_plus mit den Parametern l und n vom Typ %s und Zahl, gibt eine Zahl zurück, macht:\n\t%s\n\tGib n zurück.\nUnd überlädt den "plus" Operator.\n' % (R, t["w"](92)))
+    src.append('Die Funktion op_als mit dem Parameter l vom Typ %s, gibt %s zurück, macht:\n\t%s\n\tGib %s zurück.\nUnd überlädt den "als" Operator.\n' % (R, cast_ret, t["w"](93), cast_val))
+    src.append('Die Funktion op_mal mit den Parametern l und n vom Typ %s und Zahl, gibt eine Zahl zurück, macht:\n\t%s\n\tGib n zurück.\nUnd überlädt den "mal" Operator.\n' % (T, t["w"](94)))
+    kern = (("neg", "eine Zahl", "-p"), ("plus", "eine Zahl", "p plus 7"), ("als", cast_ret, "p als %s" % cast_to), ("mal", "eine Zahl", "p mal 8"))
+    for k, ret, e in kern:
+        src.append('Die Funktion kern_%s mit dem Parameter p vom Typ %s, gibt %s zurück, macht:\n\tGib (%s) zurück.\nUnd kann so benutzt werden:\n\t"kern_%s <p>"\n' % (k, T, ret, e, k))
+    src.append('Die Funktion zeigeW mit dem Parameter l vom Typ %s, gibt nichts zurück, macht:\n%s\nUnd kann so benutzt werden:\n\t"zeige <l>"\n' % (T, t["show"]))
+    sz, exp = [], []
+    for i, (k, ret, e) in enumerate(kern, 1):
+        sz.append("\t%s a%d ist %s." % (t["decl"], i, t["lit"]))
+        sz.append("\tSchreibe (kern_%s a%d)." % (k, i))
+        sz.append("\tSchreibe '|'.")
+        sz.append("\tzeige a%d." % i)
+        exp.append({"neg": "5", "plus": "7", "als": cast_show, "mal": "8"}[k] + "|" + t["shown"] + "|")
+    # the operator applied directly to a local variable: the by-value operator function gets a copy, the Referenz one the variable
+    sz.append("\t%s a9 ist %s." % (t["decl"], t["lit"]))
+    sz.append("\tSchreibe (a9 mal 3).\n\tSchreibe '|'.\n\tzeige a9.\n\tSchreibe (a9 plus 4).\n\tSchreibe '|'.\n\tzeige a9.")
+    exp.append("3|" + t["shown"] + "|4|" + ck_written(ty, 92) + "|")
+    src.append('Die Funktion szene mit dem Parameter n vom Typ Zahl, gibt nichts zurück, macht:\n%s\nUnd kann so benutzt werden:\n\t"szene <n>"\n\nszene 1.\n' % "\n".join(sz))
+    name = "value parameter handed to an overloaded operator (unary, binary, cast) by Referenz (%s)" % T
+    return (dict(kind="raw", name=name, ck=("operator", ty), tables={"kern_neg": "0", "kern_plus": "0", "kern_als": "0", "kern_mal": "1", "op_mal": "01"}),
+            dict(raw="\n".join(src), expected="".join(exp), name=name))
+
+
+def sibling_program(ty):
+    t = CK_TY[ty]
+    T, R = t["T"], t["R"]
+    src = ['Binde "Duden/Ausgabe" ein.\n']
+    src.append('Die Funktion anhaengen mit dem Parameter l vom Typ %s, gibt eine Zahl zurück, macht:\n\t%s\n\tGib 7 zurück.\nUnd kann so benutzt werden:\n\t"hänge an <l> an"\n' % (R, t["w"](99)))
+    src.append('Die Funktion lesen mit dem Parameter l vom Typ %s, gibt eine Zahl zurück, macht:\n\tGib (die Länge von l) zurück.\nUnd kann so benutzt werden:\n\t"lies <l>"\n' % T)
+    src.append('Die Funktion op_plus mit den Parametern l und n vom Typ %s und Zahl, gibt eine Zahl zurück, macht:\n\t%s\n\tGib n zurück.\nUnd überlädt den "plus" Operator.\n' % (R, t["w"](92)))
+    src.append('Die Funktion drucke1 mit den Parametern l und n vom Typ %s und Zahl, gibt nichts zurück, macht:\n%s\n\tSchreibe n.\n\tSchreibe \'|\'.\nUnd kann so benutzt werden:\n\t"drucke <l> und <n>"\n' % (T, t["show"]))
+    src.append('Die Funktion drucke2 mit den Parametern n und l vom Typ Zahl und %s, gibt nichts zurück, macht:\n\tSchreibe n.\n\tSchreibe \'|\'.\n%s\nUnd kann so benutzt werden:\n\t"drucke erst <n> dann <l>"\n' % (T, t["show"]))
+    src.append('Die Funktion zeigeW mit dem Parameter l vom Typ %s, gibt nichts zurück, macht:\n%s\nUnd kann so benutzt werden:\n\t"zeige <l>"\n' % (T, t["show"]))
+    old, new99, new92 = t["shown"], ck_written(ty, 99), ck_written(ty, 92)
+    cases = (
+        ("drucke a1 und (hänge an a1 an).", old + "|7|", new99),               # the nested call runs after the copy of a1 was taken
+        ("drucke erst (hänge an a2 an) dann a2.", "7|" + new99 + "|", new99),  # ... before
+        ("drucke a3 und ((hänge an a3 an) plus 1).", old + "|8|", new99),
+        ("drucke a4 und (a4 plus 6).", old + "|6|", new92),                    # overloaded operator with a Referenz parameter as the later argument
+        ("drucke a5 und (lies a5).", old + "|3|", old),
+    )
+    sz, exp = [], []
+    for i, (stmt, out, after) in enumerate(cases, 1):
+        sz.append("\t%s a%d ist %s." % (t["decl"], i, t["lit"]))
+        sz.append("\t" + stmt)
+        sz.append("\tzeige a%d." % i)
+        exp.append(out + after + "|")
+    src.append('Die Funktion szene mit dem Parameter n vom Typ Zahl, gibt nichts zurück, macht:\n%s\nUnd kann so benutzt werden:\n\t"szene <n>"\n\nszene 1.\n' % "\n".join(sz))
+    name = "argument by value while a sibling argument hands the same variable to a nested call by Referenz (%s)" % T
+    return (dict(kind="raw", name=name, ck=("sibling", ty), tables={"drucke1": "10", "drucke2": "01", "lesen": "1", "anhaengen": "0"}),
+            dict(raw="\n".join(src), expected="".join(exp), name=name))
+
+
+OPERAND_CASES = ("global", "local-ref", "element")
+
+
+def operand_program(case):
+    """the left operand of 'verkettet mit' is (part of) a variable that a call in the RIGHT operand changes"""
+    lang = "a" * 40
+    neu = "N" * 40
+    src = ['Binde "Duden/Ausgabe" ein.\n']
+    if case == "global":
+        src.append('Der Text g ist "%s".\n' % lang)
+        src.append('Die Funktion aendere_g gibt einen Text zurück, macht:\n\tSpeichere "%s" in g.\n\tGib "x" zurück.\nUnd kann so benutzt werden:\n\t"das Ergebnis vom Ändern"\n' % neu)
+        src.append('Der Text t ist g verkettet mit (das Ergebnis vom Ändern).\nSchreibe t.\nSchreibe \'|\'.\nSchreibe g.\nSchreibe \'|\'.\n')
+        exp = lang + "x|" + neu + "|"
+        name = "left operand is a global variable that a call in the right operand assigns"
+    elif case == "local-ref":
+        src.append('Die Funktion aendere mit dem Parameter r vom Typ Text Referenz, gibt einen Text zurück, macht:\n\tSpeichere "%s" in r.\n\tGib "x" zurück.\nUnd kann so benutzt werden:\n\t"das Ergebnis von <r>"\n' % neu)
+        src.append('Die Funktion szene mit dem Parameter n vom Typ Zahl, gibt nichts zurück, macht:\n\tDer Text lokal ist "%s".\n\tDer Text t ist lokal verkettet mit (das Ergebnis von lokal).\n\tSchreibe t.\n\tSchreibe \'|\'.\n\tSchreibe lokal.\n\tSchreibe \'|\'.\nUnd kann so benutzt werden:\n\t"szene <n>"\n\nszene 1.\n' % lang)
+        exp = lang + "x|" + neu + "|"
+        name = "left operand is a local variable that the right operand hands to a call by Referenz"
+    else:
+        src.append('Die Text Liste L ist eine Liste, die aus "%s", "b" besteht.\n' % lang)
+        src.append('Die Funktion leere_L gibt einen Text zurück, macht:\n\tSpeichere eine leere Text Liste in L.\n\tDer Text neu ist "%s".\n\tGib "x" zurück.\nUnd kann so benutzt werden:\n\t"das Ergebnis vom Leeren"\n' % neu)
+        src.append('Der Text t ist (L an der Stelle 1) verkettet mit (das Ergebnis vom Leeren).\nSchreibe t.\nSchreibe \'|\'.\nSchreibe (die Länge von L).\nSchreibe \'|\'.\n')
+        exp = lang + "x|0|"
+        name = "left operand is an element of a global list that a call in the right operand replaces"
+    return (dict(kind="raw", name=name, ck=("operand", case)), dict(raw="\n".join(src), expected=exp, name=name))
+
+
+def callee_kind_programs():
+    out = []
+    for ty in ("ZL", "TX"):
+        out.append(operator_program(ty))
+        out.append(sibling_program(ty))
+    for case in OPERAND_CASES:
+        out.append(operand_program(case))
     return out
